@@ -52,6 +52,7 @@ yaml_bool_dom = z3.Function('sp_yaml_bool_dom', S, B)
 yaml_bool = z3.Function('sp_yaml_bool', S, B)
 enum_has = z3.Function('ct_enum_has', Ty, S, B)           # name in Enum class
 hook_new_ok = z3.Function('hook_new_ok', Ty, S, B)        # T(s) does not raise
+sp_cites = z3.Function('sp_cites', S, B)      # the text contains some str(mark)
 str_of_obj = z3.Function('sp_str_of_obj', S, S)           # str(obj built from s)
 hook_sav_ok = z3.Function('hook_sav_ok', Ty, so.YNode, B)
 hook_sav = z3.Function('hook_sav', Ty, so.YNode, so.YNode)
@@ -294,7 +295,7 @@ SPECB = ('tyset_empty', 'tyset_of', 'in_set', 'card0', 'card1', 'cardmany',
          'composed_document', 'yielded', 'is_enum_member', 'is_obj_of',
          'enum_has', 'new_ok', 'yaml_int_dom', 'yaml_float_dom',
          'yaml_bool_dom', 'yaml_int', 'yaml_float', 'yaml_bool', 'enum_name',
-         'pystr', 'vis_sweeten')
+         'pystr', 'vis_sweeten', 'cites')
 
 
 ct_subclass = z3.Function('ct_subclass', Ty, Ty, B)       # issubclass(a, b)
@@ -506,6 +507,8 @@ class TypesPlugin:
         return None
 
     def len_of(self, eng, v, st):
+        if isinstance(v, VParamSeq):
+            return VInt(ct_nparams(v.t))
         if isinstance(v, VTySet):
             return VSetLen(v.t)
         if isinstance(v, VEmptySet):
@@ -578,6 +581,10 @@ class TypesPlugin:
             return [(st, VSuper())]
         if name == 'yaml.constructor.SafeConstructor' and not args:
             return [(st, VPyObj('safe_constructor'))]
+        if name == 'difflib.get_close_matches':
+            eng.assume_note('E-DIFFLIB: get_close_matches returns a list of '
+                            'strings and does not raise')
+            return [(st, VSeq(fresh('close_matches', so.StrSeq), 'str'))]
         if name == 'pathlib.Path' and len(args) == 1:
             a = args[0]
             if isinstance(a, VNodeValue):
@@ -632,7 +639,7 @@ class TypesPlugin:
         return None
 
     def axioms(self, formulas):
-        ax = forall_axioms(formulas)
+        ax = forall_axioms(formulas) + cite_axioms(formulas)
         ax = ax + set_axioms(list(formulas) + ax)
         if _mentions(formulas, ('sp_wf_ty', 'reg_types')):
             ax = ax + wf_axioms(formulas)
@@ -832,6 +839,12 @@ class TypesPlugin:
             return VFloat(yaml_float(args[0].t))
         if name == 'yaml_bool':
             return VBool(yaml_bool(args[0].t))
+        if name == 'cites':
+            # the message contains the text of some source position
+            # (uninterpreted; the engine asserts it for every message term
+            # that is a concatenation with a str(mark) component -- no
+            # quantifier, DESIGN 4.2)
+            return VBool(sp_cites(args[0].t))
         if name == 'enum_name':
             return VStr(args[0].arg)
         if name == 'pystr':
@@ -1006,11 +1019,14 @@ class TypesPlugin:
                 eng, args[1], so.YNode, st)))
         if name == 'E':
             return VErr(self.to_err(eng, VTuple((args[0], args[1])), st))
-        if name == 'err_msg':
-            return VStr(so.RErr.er_msg(self.to_err(eng, args[0], st)))
-        if name == 'err_causes':
-            return VSeq(so.RErr.er_causes(self.to_err(eng, args[0], st)),
-                        'err')
+        if name in ('err_msg', 'err_causes'):
+            e = self.to_err(eng, args[0], st)
+            k = 0 if name == 'err_msg' else 1
+            if z3.is_app(e) and e.decl().eq(so.RErr.er_E):
+                t = e.arg(k)        # accessor over constructor
+            else:
+                t = (so.RErr.er_msg if k == 0 else so.RErr.er_causes)(e)
+            return VStr(t) if k == 0 else VSeq(t, 'err')
         return None
 
     def to_set(self, eng, v):
@@ -1117,6 +1133,41 @@ def forall_axioms(formulas):
             ax.append(z3.Implies(z3.And(a, z3.Select(S, g)),
                                  z3.substitute(body, (_UVAR, g))))
     return ax
+
+
+def cite_axioms(formulas):
+    """sp_cites(t) for every string term t built by concatenation with a
+    str(mark) component (directly or through nested concatenations)"""
+    memo = {}
+
+    def has_mark(t):
+        k = t.get_id()
+        if k in memo:
+            return memo[k]
+        r = False
+        if z3.is_app(t):
+            if t.decl().eq(so.markstr):
+                r = True
+            elif t.decl().kind() == z3.Z3_OP_SEQ_CONCAT and t.sort() == S:
+                r = any(has_mark(c) for c in t.children())
+        memo[k] = r
+        return r
+    out = []
+    seen = set()
+    stack = list(formulas)
+    while stack:
+        t = stack.pop()
+        i = t.get_id()
+        if i in seen:
+            continue
+        seen.add(i)
+        if z3.is_quantifier(t):
+            continue
+        if z3.is_app(t):
+            if t.sort() == S and has_mark(t):
+                out.append(sp_cites(t))
+            stack.extend(t.children())
+    return out
 
 
 def image_dict(s, other, key_varies):
